@@ -293,7 +293,7 @@ def run_slice_model(prop, tier, scratch, cov):
                                                                         "as expected" if entry["as_expected"] else "UNEXPECTED"))
 
 
-TRACE_PROPS = {"C05": (("std", 0),), "C06": (("std", 0), ("bigobj", 0)), "C07": (("scen", 0),), "C08": (("std", 0), ("scen", 0), ("bigobj", 0)), "C09": (("std", 0),),
+TRACE_PROPS = {"C05": (("std", 0),), "C06": (("std", 0), ("bigobj", 0)), "C07": (("scen", 0),), "C08": (("std", 0), ("scen", 0), ("bigobj", 0)), "C09": (("std", 0), ("scen", 0)),
                "C10": (("std", 0), ("scen", 0)), "C11": (("std", 0), ("scen", 0)), "C13": (("scen", 0),), "C19": (("std", 1), ("std", 2), ("bigobj", 1))}
 
 # ---------------------------------------------------------------------------------------------
